@@ -232,6 +232,12 @@ class LiftProp(Prop):
         return i, m
 
     def shrink(self, case):
+        if case["kind"] == "lapper":
+            for k in range(len(case["ivs"])):
+                c = copy.deepcopy(case)
+                del c["ivs"][k]
+                yield c
+            return
         for cs in ch.shrink_chains(case["chains"], allow_zero=self.zero_prob > 0):
             c = copy.deepcopy(case)
             c["chains"] = cs
@@ -247,6 +253,8 @@ class LiftProp(Prop):
                 yield c
 
     def neighbours(self, case, rng):
+        if case["kind"] == "lapper":
+            return
         for i, iv in enumerate(case["ivs"]):
             for idx in (2, 3):
                 for d in (-1, 1):
@@ -350,8 +358,41 @@ class C02(LiftProp):
             "contigs, both strands; thorough adds every (start,end) pair x both strands on contigs of size <= 24; "
             "non-trivial = the contig has >= 2 blocks and the interval touches or cuts a block boundary; distinct by (file, interval)")
 
+    def cases(self, rng, tier):
+        # the interval tree of the locked rust-lapper itself against the Lean `Lapper` (find_eq_filter):
+        # one long interval among many short ones, duplicates, zero-length, queries at every boundary
+        for _ in range(300 if tier == "quick" else 20000):
+            n = rng.randint(0, 14)
+            ivs = []
+            for _ in range(n):
+                a = rng.randint(0, 40)
+                ln = rng.choice([0, 1, 1, 2, 3, 5]) if rng.random() < 0.85 else rng.randint(10, 60)
+                ivs.append([a, a + ln])
+            if ivs and rng.random() < 0.3:
+                ivs.append(list(rng.choice(ivs)))
+            pts = sorted(set(x for iv in ivs for x in iv)) or [0]
+            q = [rng.choice(pts) + rng.choice([-1, 0, 1]), rng.choice(pts) + rng.choice([-1, 0, 1])]
+            q = [max(0, min(q)), max(0, max(q))]
+            yield {"kind": "lapper", "ivs": ivs, "q": q}
+        for c in LiftProp.cases(self, rng, tier):
+            yield c
+
     def evaluate(self, ctx, case):
         ev = Eval()
+        if case["kind"] == "lapper":
+            req = "lapper %d %d %s" % (case["q"][0], case["q"][1], " ".join("%d-%d" % tuple(iv) for iv in case["ivs"]))
+            i, m = both(ctx, ev, req.strip())
+            if i != m:
+                ev.corr = "rust-lapper %r vs the Lean Lapper %r" % (i[:200], m[:200])
+            s, e = case["q"]
+            order = sorted(range(len(case["ivs"])), key=lambda k: (case["ivs"][k][0], case["ivs"][k][1], k))
+            want = "ids" + "".join(" %d" % k for k in order if case["ivs"][k][0] < e and case["ivs"][k][1] > s)
+            if i != want:
+                ev.judge = "interval tree: expected %s, got %s" % (want, i)
+            ev.tags.append("lapper")
+            if len(case["ivs"]) >= 3 and want != "ids":
+                ev.nontrivial = case_key2(case)
+            return ev
         self.tag_file(ev, case)
         i, m = self.ask_lift(ctx, ev, case)
         req = "spec hits %s %s" % (self.src(case), ",".join(iv_tok(*iv) for iv in case["ivs"]))
@@ -646,9 +687,11 @@ class C16(LiftProp):
                 dup = copy.deepcopy(c["chains"][rng.randrange(len(c["chains"]))])
                 side = rng.choice(["ref", "qry"])
                 dup[side][0] = c["chains"][k][side][0]
-                dup[side][1] = max(dup[side][4], c["chains"][k][side][1] + rng.choice([-1, 1, 7]))
+                dup[side][1] = min(U64, max(dup[side][4], c["chains"][k][side][1] + rng.choice([-1, 1, 7])))
                 if dup[side][1] == c["chains"][k][side][1]:
-                    dup[side][1] += 1
+                    dup[side][1] += 1 if dup[side][1] < U64 else -1
+                if dup[side][1] < dup[side][4]:
+                    continue
                 c["chains"].insert(rng.randrange(len(c["chains"]) + 1), dup)
                 c["kind"] = "conflict"
                 yield c
@@ -662,11 +705,20 @@ class C16(LiftProp):
         b, answers = parse_liftover_reply(i)
         ref, qry = ch.names_sizes(case["chains"], "ref"), ch.names_sizes(case["chains"], "qry")
         conflict = any(len(v) > 1 for v in ref.values()) or any(len(v) > 1 for v in qry.values())
+        # what the specification says about these bytes (the generator and the shrinker may leave the
+        # well-formed files, e.g. with a size beyond u64::MAX)
+        s = ctx.model.ask("spec wf " + self.src(case))
+        ev.requests.append("spec wf " + self.src(case))
         ev.tags.append("conflict" if conflict else "consistent")
         if conflict:
             if b.startswith("ok") or b.startswith("panic") or b == "abort":
                 ev.judge = "a file declaring one contig with two sizes gave: " + b
             ev.nontrivial = ("conflict", case_key(case))
+            return ev
+        if not s.startswith("wf"):
+            ev.tags.append("spec:" + s)
+            if b.startswith("ok"):
+                ev.judge = "ill-formed file accepted (specification says %s)" % s
             return ev
         if not b.startswith("ok"):
             ev.judge = "well-formed file refused: " + b
@@ -870,7 +922,7 @@ def case_key2(case):
 HEADERS = ["chain 0 a 9 + 0 9 b 9 + 0 9 1", "chain 5 chr1 20 - 2 11 q1 30 + 4 13 2", "chain 1 a 9 + 1 5 b 9 - 0 4 7"]
 NONTERM = ["3\t0\t1", "2\t1\t0", "4\t0\t0", "0\t2\t2"]
 TERM = ["1", "4", "9", "0"]
-JUNK = ["chain oops", "3\t1", "x", "chain 0 a 9 + 5 2 b 9 + 0 9 1", " 5", "5\t\t", "chain 0 a 9 ? 0 9 b 9 + 0 9 1", "18446744073709551616"]
+JUNK = ["chain oops", "chainX 0 a 9 + 0 9 b 9 + 0 9 1", "3\t1", "3\t1\t2\t7", "3\t0\t1\t", "4\t", "x", "chain 0 a 9 + 5 2 b 9 + 0 9 1", " 5", "5\t\t", "chain 0 a 9 ? 0 9 b 9 + 0 9 1", "18446744073709551616"]
 CLASSES = "BHNTU"
 
 
@@ -1190,6 +1242,12 @@ def mutations(rng, chains_d):
         yield ("2 data fields chain%d" % ci, l2)
         l2 = list(lines); l2[term] = lines[term] + "\t1\t1\t1"
         yield ("4 data fields chain%d" % ci, l2)
+        if len(data) > 1:
+            for extra in ("\t7", "\t"):
+                l2 = list(lines); l2[data[0]] = lines[data[0]] + extra
+                yield ("extra field on a non-terminating line chain%d" % ci, l2)
+        l2 = list(lines); l2[term] = lines[term] + "\t"
+        yield ("trailing TAB on the terminating line chain%d" % ci, l2)
         l2 = list(lines); l2[term] = "x" + lines[term]
         yield ("non-numeric size chain%d" % ci, l2)
         l2 = list(lines); l2[term] = "18446744073709551616"
@@ -1488,7 +1546,7 @@ class C08(Prop):
             base_s = ctx.impl.ask("sections %s %d" % (ch.src_events(events), 4 * len(data)))
             positions = case.get("positions") or range(len(events) + 1)
             for k in positions:
-                for kind in ("f", "i"):
+                for kind in (rng.choice(ch.FAULT_KINDS), rng.choice(ch.FAULT_KINDS), "i"):
                     evs = events[:k] + [kind] + events[k:]
                     src = ch.src_events(evs)
                     i, m = both(ctx, ev, "build " + src)
@@ -1508,6 +1566,11 @@ class C08(Prop):
                         if "panic" in i or "panic" in i2:
                             ev.judge = "panic after a failing read at position %d" % k
                     ev.tags.append("fault:" + kind)
+                    if kind != "i" and k == len(events):
+                        # a failure after the last byte: still the error of the call in progress (end of input
+                        # has not been seen yet)
+                        if i != "err sections E io":
+                            ev.judge = "a failing read at the end of the data gave %s" % i[:200]
                     if 0 < k < len(events):
                         ev.nontrivial = (case_key2(cs), case["seed"], k, kind)
                 if ev.judge:
@@ -1721,12 +1784,16 @@ def gen_header_text(rng, valid=True, distinct=True):
         out[k] = rng.choice(["", "x", "-1", "18446744073709551616", "*", " ", "1e3"])
     if not valid and rng.random() < 0.15:
         out = out[:rng.randint(1, 12)]
+    if not valid and rng.random() < 0.08:
+        out[0] = rng.choice(["chains", "chainX", "chain\t", "chain0"])
     return " ".join(out)
 
 
 def gen_data_text(rng, valid=True):
     n = rng.choice([1, 3]) if valid else rng.choice([1, 2, 3, 4, 0])
     fs = [gen_num(rng)[0] for _ in range(n)]
+    if not valid and n == 4 and rng.random() < 0.5:
+        fs[3] = rng.choice(["", "x", "7"])
     if not valid and fs and rng.random() < 0.5:
         fs[rng.randrange(len(fs))] = rng.choice(["", "x", "-0", "18446744073709551616", " 5", "5 ", "5\r"])
     return "\t".join(fs)
@@ -1953,8 +2020,26 @@ class C14(Prop):
 # C06 — panic freedom; C18 — sharing across threads
 # ==========================================================================================
 
+def gen_wide_line(rng):
+    """a long line (100-300 bytes) with 1-, 2-, 3- and 4-byte UTF-8 characters at varying offsets"""
+    pieces = []
+    n = 0
+    target = rng.randint(100, 300)
+    while n < target:
+        c = rng.choice(["a", "7", " ", "\t", "é", "染", "😀", "chain", "+", "0"])
+        pieces.append(c)
+        n += len(c.encode())
+    head = rng.choice(["", "chain 0 ", "#", "5\t"])
+    return (head + "".join(pieces)).encode()
+
+
 def gen_wild_bytes(rng):
     k = rng.random()
+    if k < 0.12:
+        lines = [gen_wide_line(rng) for _ in range(rng.randint(1, 3))]
+        if rng.random() < 0.5:
+            lines.insert(0, rng.choice(HEADERS).encode())
+        return b"\n".join(lines) + b"\n"
     if k < 0.3:
         return bytes(rng.randrange(256) for _ in range(rng.randint(0, 60)))
     if k < 0.6:
@@ -2042,7 +2127,7 @@ class C06(Prop):
             events = [("c", data)] if not case["faults"] else rng.choice(ch.chunkings(rng, data, k=2))
             if case["faults"]:
                 for _ in range(rng.randint(1, 3)):
-                    events.insert(rng.randint(0, len(events)), rng.choice(["f", "i"]))
+                    events.insert(rng.randint(0, len(events)), rng.choice(ch.FAULT_KINDS + ["i", "i"]))
             src = ch.src_events(events)
             n = data.count(b"\n") + len(events) + 2
             ivs = ",".join(iv_tok(*iv) for iv in case["ivs"])
